@@ -127,6 +127,30 @@ func checkC18(w *World, r *Report) {
 			n++
 			last := c.Args[len(c.Args)-1]
 			good := objOf(ginfo, last) == grecv && grecv != nil
+			// the helper takes the constructing scope as a parameter (a method of the provider, a plain
+			// function): every call hands it the caller's own receiver, a scope
+			if pi := paramIndexOf(g, objOf(ginfo, last)); !good && g != fi && pi >= 0 {
+				good = true
+				sitesSeen := 0
+				for caller := range w.Callers()[g] {
+					cinfo := caller.Pkg.TypesInfo
+					for _, cc := range callsIn(caller.Decl.Body, true) {
+						if callee(cinfo, cc) != g.Obj {
+							continue
+						}
+						sitesSeen++
+						if pi >= len(cc.Args) || !w.isReceiver(objOf(cinfo, cc.Args[pi])) || !recvIs(caller, "scope") {
+							good = false
+						}
+					}
+				}
+				if sitesSeen == 0 {
+					good = false
+				}
+				r.Check(good, "R18.2", fmt.Sprintf("%s#resolver/%d", fi.Name(), n), c.Pos(), false,
+					"the constructing scope, handed to the helper by every caller as its own receiver, is the resolver given to the invoker", "the invoker is given "+exprStr(last)+" as resolver, and not every caller of "+g.Name()+" passes its own receiver scope for it: injected context/scope/scoped services would come from another scope")
+				continue
+			}
 			if g != fi {
 				// the helper is a method called on createInstance's own receiver
 				for caller := range w.Callers()[g] {
@@ -328,10 +352,23 @@ func checkC18(w *World, r *Report) {
 	{
 		keyObj := w.Godi.Types.Scope().Lookup("scopeContextKey")
 		uses := map[string]int{}
+		reads := map[string]int{}
 		if keyObj != nil {
 			for _, p := range w.Pkgs {
 				for _, f := range p.Syntax {
 					ast.Inspect(f, func(x ast.Node) bool {
+						// a look-up under the key (x.Value(scopeContextKey{})) stores nothing: it may appear anywhere
+						if c, ok := x.(*ast.CallExpr); ok && len(c.Args) == 1 {
+							if _, name, isM := methodCall(c); isM && name == "Value" && isScopeKeyLit(p.TypesInfo, c.Args[0]) {
+								if fi := w.FuncAt(c.Pos()); fi != nil {
+									reads[fi.Name()]++
+									if fi.Name() == "FromContext" {
+										uses["FromContext"]++
+									}
+								}
+								return false
+							}
+						}
 						if id, ok := x.(*ast.Ident); ok && p.TypesInfo.Uses[id] == keyObj {
 							var encl string
 							for _, fi := range w.FuncsOf(p) {
@@ -358,7 +395,7 @@ func checkC18(w *World, r *Report) {
 		if uses[ro.allocScope.Name()] == 0 || uses["FromContext"] == 0 {
 			bad = "scopeContextKey is not used by both the scope constructor and FromContext"
 		}
-		r.Check(bad == "", "R18.4", "scopeContextKey#uses", token.NoPos, false, "the unexported key is used only to store the scope and to look it up", bad)
+		r.Check(bad == "", "R18.4", "scopeContextKey#uses", token.NoPos, false, fmt.Sprintf("the unexported key is used only to store the scope (in %s) and to look it up (%d function(s))", ro.allocScope.Name(), len(reads)), bad)
 		fc := w.MustFn(w.Godi, "FromContext")
 		okAssert := false
 		ast.Inspect(fc.Decl.Body, func(x ast.Node) bool {
